@@ -783,12 +783,12 @@ def gen_misc(rng, n):
         r = rng.random()
         if r < 0.6:
             kw["axis"] = rng.randrange(-nd, nd)
-            kw["ord"] = rng.choice([None, 1, 2, 3, 0.5, float("inf")]) if rng.random() < 0.6 else None
+            kw["ord"] = rng.choice([None, 1, 2, 3, 0.5, float("inf"), float("-inf")]) if rng.random() < 0.6 else None
         if rng.random() < 0.4:
             kw["keepdims"] = True
         kw = {k: v for k, v in kw.items() if v is not None}
         out.append({"cat": "norm", "name": "norm", "route": rng.choice(["func", "np"]),
-                    "operands": [r_operand(rng, shape, rng.choice(["f32", "f64", "f16"]), ("tensor",))], "args": [], "kwargs": kw,
+                    "operands": [r_operand(rng, shape, rng.choice(["f32", "f64", "f16", "f64", "i32", "i64", "bool"]), ("tensor",))], "args": [], "kwargs": kw,
                     "track": "both"})
         # sinc (an Operation calling np.sinc)
         out.append({"cat": "ufunc", "name": "sinc", "route": "func", "operands": [r_operand(rng, sa, rng.choice(["f32", "f64", "f16", "i32"]), ("tensor",))],
